@@ -1,8 +1,8 @@
 //! C12 - term-id groups (`HpoGroup`) behave as sorted sets; ancestor queries are their set algebra.
 //!
 //! Reference model: `BTreeSet<u32>`. Every observation of a live group (iteration, `len`,
-//! `is_empty`, `get`, `contains`, `as_bytes`) is taken into a `Snap` and compared with the
-//! snapshot the model set demands. Histories are executed step by step; the breadth-first
+//! `is_empty`, `get`, `contains`) is taken into a `Snap` and compared with the snapshot the
+//! model set demands (`as_bytes` is taken too, but only compared between groups of equal content). Histories are executed step by step; the breadth-first
 //! pass merges states by content and additionally compares the routes with each other.
 
 use super::c01::{POOL, POOL_ROOTS};
@@ -261,9 +261,10 @@ fn diff(obs: &Snap, exp: &Snap, producer: &str, probes: &[u32]) -> Option<Diff> 
         let wrong: Vec<String> = (0..probes.len()).filter(|i| obs.contains[*i] != exp.contains[*i]).map(|i| format!("contains({}) = {}", probes[i], obs.contains[i])).collect();
         return d("HpoGroup::contains", "membership disagrees with the set of inserted ids", format!("{} with content {:?}", wrong.join(", "), exp.iter));
     }
-    if obs.bytes != exp.bytes {
-        return d("HpoGroup::as_bytes", "not 4 big-endian bytes per id in ascending order", format!("{:?}, expected {:?}", obs.bytes, exp.bytes));
-    }
+    // as_bytes: the byte layout is the business of the binary-format properties (C07 / C08), not of this one. It is
+    // still called in every observation (it must not panic) and kept in the snapshot, so that two groups of equal
+    // content - other routes, other operator forms, the operand before and after an operation - must serialise
+    // alike; `exp.bytes` (4 big-endian bytes per id) is deliberately not compared
     None
 }
 
@@ -506,6 +507,89 @@ fn histories(ctx: &mut Ctx) {
     }
 }
 
+// ---- space: insertion sequences with clear() inside ------------------------------------------
+
+/// `clear()` as a letter of the history alphabet: a field derived from the content (a cached first / last id,
+/// a length) that `clear()` forgets to reset shows on the inserts that follow it.
+fn histories_with_clear(ctx: &mut Ctx) {
+    let max_len = if ctx.tier.thorough() { 7 } else { 6 };
+    let total: usize = (1..=max_len).map(|l| 6usize.pow(l as u32) - 5usize.pow(l as u32)).sum();
+    ctx.space(
+        "histories/insert-and-clear-sequences",
+        &format!("all {total} sequences of length 1..={max_len} over {{insert 0, insert 1, insert 2, insert 3, insert u32::MAX, clear()}} that contain at least one clear(), shortest first, on HpoGroup::new() and HpoGroup::with_capacity(31) alternately; every step observed like in histories/all-insert-sequences; one case = (length, first two letters)"),
+    );
+    for len in 1..=max_len {
+        let p = len.min(2);
+        for pi in 0..6usize.pow(p as u32) {
+            if !ctx.take() {
+                continue;
+            }
+            let prefix = digits(pi, p, 6);
+            let rest = len - p;
+            let n = 6usize.pow(rest as u32);
+            let (mut ran, mut nontrivial, mut obs) = (0u64, 0u64, 0u64);
+            for si in 0..n {
+                let mut seq: Vec<usize> = prefix.clone();
+                seq.extend(digits(si, rest, 6));
+                if !seq.contains(&5) {
+                    continue;
+                }
+                ran += 1;
+                // non-trivial: a clear() of a non-empty group is followed by an insert
+                let mut filled = false;
+                let mut cleared_filled = false;
+                for x in &seq {
+                    if *x == 5 {
+                        cleared_filled |= filled;
+                        filled = false;
+                    } else {
+                        filled = true;
+                        if cleared_filled {
+                            nontrivial += 1;
+                            break;
+                        }
+                    }
+                }
+                let ops: Vec<Op> = seq.iter().map(|x| if *x == 5 { Op::Clear } else { Op::Insert(A5[*x]) }).collect();
+                let start = if si % 2 == 0 { 0 } else { 4 };
+                let r = guard(|| -> Result<(u64, Vec<u32>), Viol> {
+                    let mut l = Live::start(start, &A5_PROBES)?;
+                    for op in &ops {
+                        match op {
+                            Op::Insert(x) => l.insert(*x)?,
+                            Op::Clear => l.clear()?,
+                        }
+                    }
+                    Ok((l.observations, l.model.iter().copied().collect()))
+                });
+                match r {
+                    Ok(Ok((o, content))) => {
+                        obs += o;
+                        let mut f = Fp::new();
+                        f.u(seq.iter().rposition(|x| *x == 5).unwrap_or(0) as u32);
+                        f.set(&content);
+                        ctx.outcome(f.0);
+                    }
+                    Ok(Err(v)) => ctx.violation(&v.0, &v.1, v.2),
+                    Err(msg) => {
+                        let v = panic_viol(msg, json!({"start": STARTS[start].1, "history": format!("{ops:?}"), "rust": rust_ops(start, &ops)}));
+                        ctx.violation(&v.0, &v.1, v.2);
+                    }
+                }
+            }
+            ctx.states(ran);
+            ctx.transitions(ran * len as u64);
+            ctx.execs(ran);
+            ctx.validateds(ran);
+            ctx.nontrivials(nontrivial);
+            ctx.bump("step_observations", obs);
+            if len == 4 && prefix == [1, 5] {
+                ctx.sample(|| json!({"length": len, "first_two": ["insert(1)", "clear()"], "sequences": ran, "example": {"history": ["insert(1)", "clear()", "insert(0)", "insert(0)"], "content": [0]}}));
+            }
+        }
+    }
+}
+
 // ---- space: breadth-first over contents ------------------------------------------------------
 
 /// Deliberately not in numeric order, so that the canonical routes insert at every position.
@@ -544,6 +628,10 @@ struct RouteObs {
     returns: Vec<bool>,
     snap: Snap,
     futures: Vec<(bool, Snap)>,
+    /// clear() on a clone: its snapshot, then for the first two ids of the alphabet in both orders the returns of
+    /// inserting them into the cleared clone and the snapshot after that
+    cleared: Snap,
+    after_clear: Vec<(Vec<bool>, Snap)>,
     unchanged_after_futures: bool,
 }
 
@@ -561,8 +649,23 @@ fn observe_route(route: &[u32], alphabet: &[u32]) -> RouteObs {
         let r = c.insert(*y);
         futures.push((r, Snap::of(&c, alphabet)));
     }
+    at("HpoGroup::clone");
+    let mut c = g.clone();
+    at("HpoGroup::clear");
+    c.clear();
+    let cleared = Snap::of(&c, alphabet);
+    let mut after_clear = vec![];
+    for pair in [[alphabet[0], alphabet[1]], [alphabet[1], alphabet[0]]] {
+        at("HpoGroup::clone");
+        let mut c = g.clone();
+        at("HpoGroup::clear");
+        c.clear();
+        at("HpoGroup::insert");
+        let rets = pair.iter().map(|y| c.insert(*y)).collect();
+        after_clear.push((rets, Snap::of(&c, alphabet)));
+    }
     let unchanged_after_futures = Snap::of(&g, alphabet) == snap;
-    RouteObs { returns, snap, futures, unchanged_after_futures }
+    RouteObs { returns, snap, futures, cleared, after_clear, unchanged_after_futures }
 }
 
 fn check_route_against_model(o: &RouteObs, content: &BTreeSet<u32>, alphabet: &[u32]) -> Option<Diff> {
@@ -584,8 +687,21 @@ fn check_route_against_model(o: &RouteObs, content: &BTreeSet<u32>, alphabet: &[
             return Some((s, g, format!("after the next insert({y}): {w}")));
         }
     }
+    if let Some((s, g, w)) = diff(&o.cleared, &Snap::expected(&[], alphabet), "HpoGroup::clear", alphabet) {
+        return Some((s, g, format!("after clear() of the content {sorted:?}: {w}")));
+    }
+    for (k, pair) in [[alphabet[0], alphabet[1]], [alphabet[1], alphabet[0]]].iter().enumerate() {
+        if o.after_clear[k].0 != [true, true] {
+            return Some(("HpoGroup::insert".into(), SIG_INSERT_RET.into(), format!("content {sorted:?}, then clear(), insert({}), insert({}) returned {:?}", pair[0], pair[1], o.after_clear[k].0)));
+        }
+        let mut e = pair.to_vec();
+        e.sort_unstable();
+        if let Some((s, g, w)) = diff(&o.after_clear[k].1, &Snap::expected(&e, alphabet), "HpoGroup::insert", alphabet) {
+            return Some((s, g, format!("content {sorted:?}, then clear(), insert({}), insert({}): {w}", pair[0], pair[1])));
+        }
+    }
     if !o.unchanged_after_futures {
-        return Some(("HpoGroup::clone".into(), "inserting into a clone changes the original".into(), format!("content {sorted:?}")));
+        return Some(("HpoGroup::clone".into(), "inserting into (or clearing) a clone changes the original".into(), format!("content {sorted:?}")));
     }
     None
 }
@@ -596,7 +712,7 @@ fn bfs(ctx: &mut Ctx) {
     let (order, index) = bfs_states(k, depth);
     ctx.space(
         "histories/bfs-by-content",
-        &format!("breadth-first over insertion histories of a {k}-id alphabet {:?} with a visited set keyed by content, depth <= {depth}: {} contents; one case = one content S: every BFS edge into S (first-found route of S\\{{x}}, then x) replayed on a fresh group, all routes compared with each other (returns, full snapshot, and return + snapshot of every possible next insert, i.e. all edges out of S incl. re-inserts) and with the model", alphabet, order.len()),
+        &format!("breadth-first over insertion histories of a {k}-id alphabet {:?} with a visited set keyed by content, depth <= {depth}: {} contents; one case = one content S: every BFS edge into S (first-found route of S\\{{x}}, then x) replayed on a fresh group, all routes compared with each other (returns, full snapshot, and return + snapshot of every possible next insert, i.e. all edges out of S incl. re-inserts, and of clear() followed by two inserts in both orders) and with the model", alphabet, order.len()),
     );
     for (mask, witness) in &order {
         if !ctx.take() {
@@ -1892,6 +2008,293 @@ fn constructors_asymmetric(ctx: &mut Ctx) {
     }
 }
 
+// ---- space: operands whose storage is on the heap although they hold <= 30 ids --------------
+
+/// Every operand of the spaces above that holds <= 30 ids sits in the inline storage: `new`, `with_capacity(0)`,
+/// `From<Vec>` of <= 30 entries and `FromIterator` never allocate for so few ids, and the owned operator forms
+/// are fed `.clone()`s, which move a short group back inline. These three constructions give a group of <= 30
+/// ids whose storage is (by the small-vector's documented behaviour; capacity is not observable) on the heap.
+const HEAP_BUILDS: [&str; 3] = ["with_capacity(64) + insert ascending", "From<Vec<u32>> of >= 40 entries: the ids descending, repeated", "`&p | &q` of two inline groups with |p| + |q| > 30 (24 ids and more; fewer: with_capacity(64))"];
+
+fn build_heap_short(sorted: &[u32], variant: usize) -> HpoGroup {
+    let n = sorted.len();
+    match variant {
+        1 if n > 0 => {
+            at(CONSTRUCTORS[1]);
+            let seq: Vec<u32> = (0..40.max(n + 10)).map(|i| sorted[n - 1 - i % n]).collect();
+            HpoGroup::from(seq)
+        }
+        2 if n >= 24 => {
+            let k = (2 * n + 2) / 3;
+            let (gp, gq) = (build_operand(&sorted[..k], 0), build_operand(&sorted[n - k..], 2));
+            at(FORMS[0].1);
+            &gp | &gq
+        }
+        _ => {
+            at("HpoGroup::insert");
+            let mut g = HpoGroup::with_capacity(64);
+            for x in sorted {
+                g.insert(*x);
+            }
+            g
+        }
+    }
+}
+
+fn rust_heap_operand(name: &str, sorted: &[u32], heap: Option<usize>) -> String {
+    let n = sorted.len();
+    let lit = |v: &[u32]| v.iter().map(|x| format!("{x}u32")).collect::<Vec<_>>().join(", ");
+    match heap {
+        None => rust_operand(name, sorted, 0),
+        Some(1) if n > 0 => {
+            let seq: Vec<u32> = (0..40.max(n + 10)).map(|i| sorted[n - 1 - i % n]).collect();
+            format!("let {name} = HpoGroup::from(Vec::<u32>::from([{}]));\n", lit(&seq))
+        }
+        Some(2) if n >= 24 => {
+            let k = (2 * n + 2) / 3;
+            format!("let {name} = &HpoGroup::from(Vec::<u32>::from([{}])) | &HpoGroup::from(Vec::<u32>::from([{}]));\n", lit(&sorted[..k]), lit(&sorted[n - k..]))
+        }
+        Some(_) => format!("let mut {name} = HpoGroup::with_capacity(64);\nfor x in Vec::<u32>::from([{}]) {{ {name}.insert(x); }}\n", lit(sorted)),
+    }
+}
+
+/// The six operator forms with both operands MOVED into the owned forms (no clone in between).
+fn apply_moved(form: usize, a: HpoGroup, b: HpoGroup) -> HpoGroup {
+    at(FORMS[form].1);
+    match form {
+        0 => &a | &b,
+        1 => a | b,
+        2 => a | &b,
+        3 => &a & &b,
+        4 => a & b,
+        _ => a & &b,
+    }
+}
+
+/// All six operator forms (and, for a one-id `b`, the three set + id forms) on freshly built operands, `heap_a` /
+/// `heap_b` = Some(construction of HEAP_BUILDS) or None (new + insert ascending). Returns the operator executions.
+fn heap_ops(ctx: &mut Ctx, a: &[u32], b: &[u32], heap_a: Option<usize>, heap_b: Option<usize>, probes: &[u32], fp: &mut Fp) -> u64 {
+    let sa: BTreeSet<u32> = a.iter().copied().collect();
+    let sb: BTreeSet<u32> = b.iter().copied().collect();
+    let union: Vec<u32> = sa.union(&sb).copied().collect();
+    let inter: Vec<u32> = sa.intersection(&sb).copied().collect();
+    fp.set(&union);
+    fp.set(&inter);
+    let (eu, ei) = (Snap::expected(&union, probes), Snap::expected(&inter, probes));
+    let mk = |set: &[u32], heap: Option<usize>| match heap {
+        Some(v) => build_heap_short(set, v),
+        None => build_operand(set, 0),
+    };
+    let with_id = b.len() == 1;
+    let r = guard(|| -> Vec<(String, Diff)> {
+        let mut out = vec![];
+        for (set, heap) in [(a, heap_a), (b, heap_b)] {
+            if let Some(d) = diff(&Snap::of(&mk(set, heap), probes), &Snap::expected(set, probes), "HpoGroup (operand construction)", probes) {
+                out.push(("a".to_string(), d));
+                return out;
+            }
+        }
+        let snaps: Vec<Snap> = (0..FORMS.len()).map(|f| Snap::of(&apply_moved(f, mk(a, heap_a), mk(b, heap_b)), probes)).collect();
+        for f in 0..FORMS.len() {
+            if let Some(d) = diff(&snaps[f], if f < 3 { &eu } else { &ei }, FORMS[f].1, probes) {
+                out.push((FORMS[f].0.to_string(), d));
+            }
+        }
+        for f in [1usize, 2, 4, 5] {
+            let base = if f < 3 { 0 } else { 3 };
+            if snaps[f] != snaps[base] {
+                out.push((FORMS[f].0.to_string(), (FORMS[f].1.into(), SIG_FORMS_DISAGREE.into(), format!("`{}` gives {:?} (len {}), `{}` gives {:?} (len {})", FORMS[f].0, snaps[f].iter, snaps[f].len, FORMS[base].0, snaps[base].iter, snaps[base].len))));
+            }
+        }
+        // the result of a by-reference form is used once more, and the operands are still what they were
+        let (ga, gb) = (mk(a, heap_a), mk(b, heap_b));
+        at(FORMS[0].1);
+        let u = &ga | &gb;
+        at(FORMS[3].1);
+        let back = &u & &ga;
+        if let Some(d) = diff(&Snap::of(&back, probes), &Snap::expected(a, probes), FORMS[3].1, probes) {
+            out.push(("&(&a | &b) & &a".to_string(), d));
+        }
+        for (g, set) in [(&ga, a), (&gb, b)] {
+            if let Some((_, sig, w)) = diff(&Snap::of(g, probes), &Snap::expected(set, probes), FORMS[0].1, probes) {
+                out.push(("&a | &b".to_string(), (FORMS[0].1.into(), format!("an operand observed after the operation differs from before: {sig}"), w)));
+            }
+        }
+        if with_id {
+            let mut e = sa.clone();
+            e.insert(b[0]);
+            let e: Vec<u32> = e.into_iter().collect();
+            for f in 0..ID_FORMS.len() {
+                let ga = mk(a, heap_a);
+                at(ID_FORMS[f].1);
+                let res = match f {
+                    0 => &ga | tid(b[0]),
+                    1 => &ga + tid(b[0]),
+                    _ => ga + tid(b[0]),
+                };
+                if let Some(d) = diff(&Snap::of(&res, probes), &Snap::expected(&e, probes), ID_FORMS[f].1, probes) {
+                    out.push((format!("{} with id = {}", ID_FORMS[f].0, b[0]), d));
+                }
+            }
+        }
+        out
+    });
+    let how = |h: Option<usize>| h.map_or(BUILDS[0], |v| HEAP_BUILDS[v]);
+    let detail = |expr: &str, what: String| json!({"a": a, "b": b, "expression": expr, "operand_construction": [how(heap_a), how(heap_b)], "union": union, "intersection": inter, "difference": what, "rust": format!("use hpo::annotations::AnnotationId;\nuse hpo::term::HpoGroup;\nuse hpo::HpoTermId;\n{}{}let id = HpoTermId::from_u32({}u32);\nlet r = {};\nprintln!(\"{{:?}} len={{}}\", r.iter().map(|i| i.as_u32()).collect::<Vec<_>>(), r.len());\n", rust_heap_operand("a", a, heap_a), rust_heap_operand("b", b, heap_b), b.first().copied().unwrap_or(0), expr.split(" with ").next().unwrap_or(expr))});
+    match r {
+        Ok(found) => {
+            for (expr, (site, sig, what)) in found {
+                ctx.violation(&site, &sig, detail(&expr, what));
+            }
+        }
+        Err(msg) => ctx.violation(at_get(), SIG_PANIC, detail("&a | &b", format!("panic: {msg}"))),
+    }
+    (FORMS.len() + 2 + if with_id { ID_FORMS.len() } else { 0 }) as u64
+}
+
+fn algebra_heap_short(ctx: &mut Ctx) {
+    let universe = &IDS7[..6];
+    let subsets = subsets_simplest_first(6);
+    ctx.space(
+        "algebra/heap-short-operands/small-universe",
+        &format!("all 64 x 64 ordered pairs of subsets of {universe:?} where (a | b | both) are groups of <= 30 ids with heap storage (constructions {:?}, alternating) and are MOVED into the owned operator forms: 6 operator forms against the model and each other, `&(&a | &b) & &a`, operands unchanged, and for one-id b the three set + id forms; one case = one left operand", &HEAP_BUILDS[..2]),
+    );
+    for &ma in &subsets {
+        if !ctx.take() {
+            continue;
+        }
+        let a = pick(universe, ma);
+        let (mut n, mut nontrivial) = (0u64, 0u64);
+        for (k, &mb) in subsets.iter().enumerate() {
+            let b = pick(universe, mb);
+            let mut fp = Fp::new();
+            for (ha, hb) in [(Some(k % 2), None), (None, Some((k + 1) % 2)), (Some((k + 1) % 2), Some(k % 2))] {
+                n += heap_ops(ctx, &a, &b, ha, hb, &IDS7, &mut fp);
+            }
+            ctx.outcome(fp.0);
+            if ma & mb != ma && ma & mb != mb {
+                nontrivial += 1;
+            }
+        }
+        ctx.states(3 * subsets.len() as u64);
+        ctx.nontrivials(nontrivial);
+        ctx.transitions(n);
+        ctx.execs(n);
+        ctx.validateds(n);
+        if ma.count_ones() == 2 {
+            ctx.sample(|| json!({"a": a, "b": "each of the 64 subsets", "heap_constructions": &HEAP_BUILDS[..2]}));
+        }
+    }
+    let (short, other) = ([1usize, 15, 24, 29, 30], [0usize, 1, 29, 30, 31, 60]);
+    ctx.space(
+        "algebra/heap-short-operands/grid",
+        &format!("a heap-stored group of {short:?} ids (constructions {HEAP_BUILDS:?}) x a group of {other:?} ids (built by insertion; if it holds <= 30 ids also heap-stored) x overlap {OVERLAPS:?} x both operand orders: 6 operator forms with moved operands against the model and each other; one case = (overlap, sizes)"),
+    );
+    for kind in 0..OVERLAPS.len() {
+        for &ns in &short {
+            for &no in &other {
+                if !ctx.take() {
+                    continue;
+                }
+                let (a, b) = grid_sets(ns, no, kind);
+                let mut probes: Vec<u32> = a.iter().chain(b.iter()).copied().collect();
+                let (lo, hi) = (probes.iter().min().copied().unwrap_or(50), probes.iter().max().copied().unwrap_or(50));
+                probes.extend([0, lo - 1, hi + 1, u32::MAX]);
+                probes.sort_unstable();
+                probes.dedup();
+                let mut fp = Fp::new();
+                let mut n = 0;
+                for hv in 0..HEAP_BUILDS.len() {
+                    n += heap_ops(ctx, &a, &b, Some(hv), None, &probes, &mut fp);
+                    n += heap_ops(ctx, &b, &a, None, Some(hv), &probes, &mut fp);
+                    if no <= 30 {
+                        n += heap_ops(ctx, &a, &b, Some(hv), Some((hv + 1) % 3), &probes, &mut fp);
+                    }
+                }
+                ctx.outcome(fp.0);
+                ctx.state();
+                if no > 0 {
+                    ctx.nontrivial();
+                }
+                ctx.transitions(n);
+                ctx.execs(n);
+                ctx.validateds(n);
+                if ns == 29 && no == 31 {
+                    ctx.sample(|| json!({"heap_stored_size": ns, "other_size": no, "overlap": OVERLAPS[kind], "a_head": &a[..4], "b_head": &b[..4]}));
+                }
+            }
+        }
+    }
+}
+
+// ---- space: size pairs between the enumerated islands -----------------------------------------
+
+/// Operand sizes the other algebra spaces leave out: a large group of 65 and more ids against a small one of
+/// 1..63 ids, and a large group of 31..64 ids against an irregular small one of 3..15 ids (size ratios up to 333).
+fn algebra_asymmetric_ratio(ctx: &mut Ctx) {
+    let larges = [31usize, 60, 64, 128, 257, 1000];
+    let smalls = [3usize, 4, 5, 6, 8, 15, 33, 63];
+    ctx.space(
+        "algebra/asymmetric-ratio",
+        &format!("large group of L in {larges:?} ids 10,20,..,10L x small groups drawn by a deterministic LCG (seed = L, size, number) from the universe of algebra/asymmetric (all members + every gap id + 0, 5, u32::MAX): sizes {smalls:?} (L <= 64: up to 15), 24 groups per size up to 6 and 6 per larger size; for L >= 128 additionally every one-id group (L = 1000: every 7th) and every two-id group over the 20 universe ids next to both ends and the middle of the large group; both operand orders x 6 operator forms, every result observed completely and the forms compared with each other; one case = (L, kind of small group)"),
+    );
+    for &l in &larges {
+        let (large, universe) = asym_universe(l);
+        let nu = universe.len();
+        // probes: the whole universe (L = 1000: every 5th id of it; the ids of the small group are always added)
+        let base_probes: Vec<u32> = if l >= 1000 { universe.iter().copied().step_by(5).chain([u32::MAX]).collect() } else { universe.clone() };
+        let border: Vec<u32> = (0..7).chain(nu / 2 - 3..nu / 2 + 3).chain(nu - 7..nu).map(|i| universe[i]).collect();
+        for kind in 0..smalls.len() + 2 {
+            let groups: Vec<Vec<u32>> = if kind < smalls.len() {
+                let k = smalls[kind];
+                if l <= 64 && k > 15 {
+                    continue;
+                }
+                (0..if k <= 6 { 24 } else { 6 }).map(|j| Lcg(1_000_000 * l as u64 + 1000 * k as u64 + j).draw(&universe, k)).collect()
+            } else if l < 128 {
+                continue;
+            } else if kind == smalls.len() {
+                universe.iter().step_by(if l >= 1000 { 7 } else { 1 }).map(|x| vec![*x]).collect()
+            } else {
+                let mut v = vec![];
+                for i in 0..border.len() {
+                    for j in i + 1..border.len() {
+                        v.push(vec![border[i], border[j]]);
+                    }
+                }
+                v
+            };
+            if !ctx.take() {
+                continue;
+            }
+            let (mut n, mut nontrivial) = (0u64, 0u64);
+            for (j, small) in groups.iter().enumerate() {
+                let shared = small.iter().filter(|x| large.binary_search(x).is_ok()).count();
+                if shared > 0 && shared < small.len() {
+                    nontrivial += 1;
+                }
+                let mut probes = base_probes.clone();
+                probes.extend(small.iter().copied());
+                probes.sort_unstable();
+                probes.dedup();
+                let (vl, vs) = if j % 2 == 0 { (0, 2) } else { (3, 1) };
+                let mut fp = Fp::new();
+                n += asym_ops(ctx, &large, small, vl, vs, &probes, &mut fp);
+                n += asym_ops(ctx, small, &large, vs, vl, &probes, &mut fp);
+                ctx.outcome(fp.0);
+            }
+            ctx.states(2 * groups.len() as u64);
+            ctx.nontrivials(nontrivial);
+            ctx.transitions(n);
+            ctx.execs(n);
+            ctx.validateds(n);
+            if l == 257 && kind == 0 {
+                ctx.sample(|| json!({"large": "10, 20, .., 2570", "small_groups": &groups[..4], "operand_orders": ["large op small", "small op large"]}));
+            }
+        }
+    }
+}
+
 // ------------------------------------------------------------------------------------------
 // ancestor queries
 // ------------------------------------------------------------------------------------------
@@ -1945,10 +2348,21 @@ fn check_pair_across(ont: &Ontology, r: &RefOnt, ont_b: &Ontology, r_b: &RefOnt,
             let sig = if s == *site { format!("{sig}; expected {formula}") } else { sig };
             out.push((s, sig, format!("{site}({a}, {b})"), what));
         }
-        if i == 2 && obs.iter.iter().all(|x| r.terms.contains_key(x)) {
-            // resolving iterator over a group: HpoGroup::terms
-            if let Err((s, sig, what)) = iter_protocol(|| g.terms(ont), |t| t.id().as_u32(), "HpoGroup::terms", true) {
-                out.push((s, sig, format!("{site}({a}, {b}).terms(ontology)"), what));
+        if obs.iter.iter().all(|x| r.terms.contains_key(x)) {
+            // resolving iterator over a group: HpoGroup::terms yields the terms of exactly the group's ids (order of
+            // iteration: as for Combined, the multiset is compared)
+            at("HpoGroup::terms");
+            let mut resolved: Vec<u32> = g.terms(ont).map(|t| t.id().as_u32()).collect();
+            resolved.sort_unstable();
+            let mut own = obs.iter.clone();
+            own.sort_unstable();
+            if resolved != own {
+                out.push(("HpoGroup::terms".into(), "yields other terms than the ids of the group".into(), format!("{site}({a}, {b}).terms(ontology)"), format!("yields {resolved:?}, the group holds {own:?} (both sorted)")));
+            }
+            if i == 2 {
+                if let Err((s, sig, what)) = iter_protocol(|| g.terms(ont), |t| t.id().as_u32(), "HpoGroup::terms", true) {
+                    out.push((s, sig, format!("{site}({a}, {b}).terms(ontology)"), what));
+                }
             }
         }
         twins.push(obs.iter);
@@ -2305,7 +2719,7 @@ fn ancestors_across(ctx: &mut Ctx, seen: &mut BTreeSet<String>) {
         let stride = if n == 4 && !ctx.tier.thorough() { 97 } else { 1 };
         ctx.space(
             &format!("ancestors/two-instances/D{n}xD{n}"),
-            &format!("ordered pairs (A, B) of the {} labelled DAGs on the ids {:?}{}: both built as separate Ontology instances (Builder, build_minimal), then for all {} pairs (a in A, b in B), equal ids included, the 8 queries a.query(b) against set algebra on anc_A(a) and anc_B(b); iterator twins resolve in A (all ids exist in both); one case = one (A, B)", dags.len(), &POOL[..n], if stride == 1 { format!(" (all {total})") } else { format!(" - every {stride}th of the {total} pairs in row-major order") }, n * n),
+            &format!("ordered pairs (A, B) of the {} labelled DAGs on the ids {:?}{}: both built as separate Ontology instances (Builder, build_minimal), then for all {} pairs (a in A, b in B), equal ids included, the 8 queries a.query(b): every answer against set algebra on anc_A(a) and anc_B(b), a refused query (panic) is accepted and counted; iterator twins resolve in A (all ids exist in both); one case = one (A, B)", dags.len(), &POOL[..n], if stride == 1 { format!(" (all {total})") } else { format!(" - every {stride}th of the {total} pairs in row-major order") }, n * n),
         );
         if stride != 1 {
             ctx.mark_partial(&format!("ancestors/two-instances/D4xD4: quick tier takes every {stride}th ordered pair of graphs (all pairs in the thorough tier)"));
@@ -2339,18 +2753,20 @@ fn ancestors_across(ctx: &mut Ctx, seen: &mut BTreeSet<String>) {
                 };
                 let mut found: Vec<AFind> = vec![];
                 let mut fp = Fp::new();
-                let res = guard(|| {
-                    for &a in &ids {
-                        for &b in &ids {
-                            check_pair_across(&oa.0, &ra, &ob.0, &rb, a, b, &ids, &mut fp, &mut found);
+                // the property quantifies over pairs of terms of ONE ontology: a query across two instances may be
+                // refused (a panic is the only refusal these signatures allow); every answer that IS given is held
+                // to the set algebra on anc_A(a) and anc_B(b)
+                let mut refused = 0u64;
+                for &a in &ids {
+                    for &b in &ids {
+                        if guard(|| check_pair_across(&oa.0, &ra, &ob.0, &rb, a, b, &ids, &mut fp, &mut found)).is_err() {
+                            refused += 1;
                         }
                     }
-                });
+                }
+                ctx.bump("two_instance_pairs_refused", refused);
                 ctx.outcome(fp.0);
                 let prelude = || format!("{}{}", ob.1.replace("let ont = ", "let ont_b = "), oa.1);
-                if let Err(msg) = res {
-                    ctx.violation(at_get(), SIG_PANIC, json!({"facts_a": fa.to_json(), "facts_b": fb.to_json(), "shape": shape, "panic": msg, "rust": prelude()}));
-                }
                 for (site, sig, query, what) in found {
                     let key = format!("{site}|{sig}");
                     if seen.contains(&key) {
@@ -2369,20 +2785,23 @@ fn ancestors_across(ctx: &mut Ctx, seen: &mut BTreeSet<String>) {
 }
 
 pub fn run(ctx: &mut Ctx) {
-    ctx.rule = "histories: every insertion sequence over a 5-id alphabet up to the length bound, shortest first, executed step by step next to a BTreeSet (non-trivial = contains a repeated id and an id smaller than an earlier one); BFS: one case per distinct content, all insertion routes into it compared with each other and the model (non-trivial = at least two routes); inline-limit / constructors / algebra: one case per (order, ids, start) resp. input sequence resp. operand pair (asymmetric spaces: one case per smallest id of the small group / extra ids, non-trivial = the small group shares an id with the large one and brings a new one), distinct by construction (non-trivial: constructor input is not already strictly ascending, i.e. needs sorting or de-duplication; operands neither empty nor nested); ancestors: one case per labelled DAG (all ordered pairs; binary-flags: all flag variants of it) or per (deep shape / chain of 300, ids, construction, first term) (non-trivial = has a link), or per ordered pair of graphs built as two instances (non-trivial = the graphs differ); outcomes are fingerprints of the observed contents / results".into();
+    ctx.rule = "histories: every insertion sequence over a 5-id alphabet up to the length bound, shortest first, executed step by step next to a BTreeSet (non-trivial = contains a repeated id and an id smaller than an earlier one), and every such sequence with clear() as a sixth letter that contains a clear() (non-trivial = an insert follows the clear() of a non-empty group); BFS: one case per distinct content, all insertion routes into it compared with each other and the model (non-trivial = at least two routes); inline-limit / constructors / algebra: one case per (order, ids, start) resp. input sequence resp. operand pair (asymmetric spaces: one case per smallest id of the small group / extra ids resp. per (size of the large group, kind of small group), non-trivial = the small group shares an id with the large one and brings a new one; heap-short operands: one case per left operand resp. (overlap, sizes)), distinct by construction (non-trivial: constructor input is not already strictly ascending, i.e. needs sorting or de-duplication; operands neither empty nor nested); ancestors: one case per labelled DAG (all ordered pairs; binary-flags: all flag variants of it) or per (deep shape / chain of 300, ids, construction, first term) (non-trivial = has a link), or per ordered pair of graphs built as two instances (non-trivial = the graphs differ); outcomes are fingerprints of the observed contents / results".into();
     ctx.assumptions = vec![
         "any u32 is a legal id for HpoGroup (0 and u32::MAX included); the documentation states no restriction".into(),
         "HpoGroup::with_capacity: capacity is not observable; only the behaviour of the resulting empty group is checked".into(),
         "From<HashSet<HpoTermId>>: the iteration order of the std HashSet (RandomState) is not controlled; the result must not depend on it".into(),
         "the families named 'LCG' (shuffled constructor inputs, irregular operand pairs) are fixed lists generated by a deterministic generator with constant seeds; they are the same in every run and process and are enumerated completely".into(),
         "operands of the operators are groups built through the public API (insert / From / FromIterator), never hand-crafted unsorted storage".into(),
+        "heap-short operands: that with_capacity(n > 30), From<Vec> of more than 30 entries and the result of `|` on operands with more than 30 ids together keep their ids on the heap is the documented behaviour of the small-vector the group is built on; it cannot be observed through the public API and nothing is demanded about it".into(),
+        "as_bytes: the byte layout is not part of this property (C07 / C08); it is only demanded that groups of equal content serialise alike".into(),
         "HpoTerm::all_union_ancestor_ids / all_union_ancestors: the documentation contradicts itself (prose: self and other included; doc-test: not included); exactly these two readings are accepted, the exclusive one is reported as the known finding".into(),
         "ancestor queries: acyclic ontologies; built with Builder + build_minimal, and (binary-flags, chain300) also decoded from a binary v3 file written by the independent encoder, where terms may be flagged obsolete / replaced - the property quantifies over all terms of all ontologies and its set algebra does not mention flags, so flagged terms count like any other; both terms belong to the same ontology".into(),
-        "two-instances: the ancestor queries accept any two HpoTerm handles; for terms of two different Ontology instances the ancestors of each term are those in its own ontology (what the crate's comparison of two releases relies on); both instances hold the same ids, so the resolving twins can resolve every result in the first term's ontology".into(),
+        "two-instances: the ancestor queries accept any two HpoTerm handles, but the statement quantifies over pairs of terms of one ontology: a query on terms of two Ontology instances may be refused (panic); an answer that is given must be the set algebra on each term's ancestors in its own ontology (what the crate's comparison of two releases relies on); both instances hold the same ids, so the resolving twins can resolve every result in the first term's ontology".into(),
         "iterator adaptors (count, size_hint, nth, skip, last) of hpo's iterators must agree with their own forward iteration; size_hint only has to bracket the number of remaining items".into(),
         "Combined (iterator twins): the order of iteration is not part of the property; the multiset of yielded ids is compared (so a repeated id is still caught)".into(),
     ];
     histories(ctx);
+    histories_with_clear(ctx);
     bfs(ctx);
     inline_limit(ctx);
     large_live(ctx);
@@ -2393,6 +2812,8 @@ pub fn run(ctx: &mut Ctx) {
     algebra_large_irregular(ctx);
     algebra_mid_irregular(ctx);
     algebra_asymmetric(ctx);
+    algebra_asymmetric_ratio(ctx);
+    algebra_heap_short(ctx);
     constructors_asymmetric(ctx);
     let mut seen: BTreeSet<String> = BTreeSet::new();
     ancestors_dags(ctx, &mut seen);
